@@ -1,17 +1,17 @@
-\* the cache rule of filters.py:93-94 (only the component a filter is stored on): TLC finds the stale look-up (D4)
+\* the cache rule of insights/core/filters.py:93-94 (only the component a filter is stored on is invalidated):
+\* TLC finds the stale look-up (D4) - get(I1), add(P, {1}), get(I1).  Expected result: LookupIsUnionInv violated.
 SPECIFICATION SpecHist
 CONSTANTS
   NP = 2
-  BudSet = {1, 2}
+  BudSet = {1}
   Depth = 5
   CacheRule = "self"
   AddSet = {"I1", "I2", "P", "I3", "P2", "Q1", "Q2", "K"}
-  GetSet = {"I1", "I2", "P", "I3"}
-  PatSets = {{1}, {2}, {1, 2}, {0}}
+  GetSet = {"I1", "I2", "P"}
+  PatSets = {{1}, {2}, {0}}
   MaxLines = 0
   CBudSet = {0}
   PathSet = {"archive"}
 INVARIANT LookupIsUnionInv
 INVARIANT TableIsUnion
-PROPERTY LookupIsUnion
 CHECK_DEADLOCK FALSE
